@@ -1,6 +1,7 @@
 (* driver for C18: case line as for C17 (harness/loopharness.h) with the actions
    l<fl>:<cb> wi<fd>:<cond>:<fl>:<cb> ws<sig>:<fl>:<cb> c<id> e<n> k<sig> - and the ops r0 o
-   R<fd>:<revents> K<sig>.  model = LoopSigDefs.srun fixed_cfg (VERIF_C18_PINNED=1: the
+   R<fd>:<revents> K<sig>.  A case that starts with the token F runs the self-pipe fallback under
+   a custom loop (model LoopPipeDefs.f_run, oracle LoopPipeSpec.fb_checkb; ops r0 and B<sig>).  model = LoopSigDefs.srun fixed_cfg (VERIF_C18_PINNED=1: the
    pinned behaviour of defects #24/#25); oracle = LoopSigSpec.xspec_checkb. *)
 let zi = z_of_int
 let rec nat_of_int n = if n <= 0 then O else S (nat_of_int (n - 1))
@@ -25,6 +26,7 @@ let parse_case line =
   let cbs = Hashtbl.create 8 in
   let ops = ref [] in
   List.iter (fun tok ->
+      if tok = "F" then () else
       if String.length tok > 2 && tok.[0] = 'c' && tok.[1] = 'b' then begin
         match String.index_opt tok '=' with
         | Some i ->
@@ -62,8 +64,23 @@ let parse_obs s =
           | _ -> failwith "event")
       | _ -> failwith ("obs " ^ tok))
     (List.filter (fun x -> x <> "-") (split_ws s))
+(* ---- cases that start with F: the self-pipe fallback under a custom loop (LoopPipeDefs) *)
+let is_fallback line = match split_ws line with "F" :: _ -> true | _ -> false
+let parse_fcase line =
+  (* B<sig> is only meaningful here; it is parsed before the common parser sees the line *)
+  let toks = split_ws line in
+  let plain = String.concat " " (List.map (fun t -> if t.[0] = 'B' then "K" ^ tl t 1 else t) toks) in
+  let (env, ops) = parse_case plain in
+  (env, List.map (function SArrive sg -> FBetween sg | SAct a -> FAct a | STick false -> FTick | _ -> failwith "not a fallback op") ops)
+let drain_late = (try Sys.getenv "VERIF_C18_DRAINLATE" = "1" with Not_found -> false)
 let cfg = if (try Sys.getenv "VERIF_C18_PINNED" = "1" with Not_found -> false) then pinned_cfg else fixed_cfg
 let model line =
+  if is_fallback line then begin
+    let (env, ops) = parse_fcase line in
+    match f_run drain_late env fuel ops with
+    | Some l -> pr_obs l
+    | None -> "NONE fuel exhausted or fault"
+  end else
   let (env, ops) = parse_case line in
   match srun cfg env fuel ops with
   | Some l -> pr_obs l
@@ -72,6 +89,12 @@ let oracle line =
   match String.index_opt line '|' with
   | Some i ->
     let c = String.sub line 0 i and o = tl line (i + 1) in
+    if is_fallback c then begin
+      let (env, ops) = parse_fcase c in
+      match (try Some (parse_obs o) with _ -> None) with
+      | None -> "BAD unreadable observation"
+      | Some obs -> if fb_checkb env ops obs then "OK" else "BAD a delivered signal did not reach its watchers in time (or a watcher ran without its signal)"
+    end else
     let (env, ops) = parse_case c in
     (match (try Some (parse_obs o) with _ -> None) with
      | None -> "BAD unreadable observation"
